@@ -168,6 +168,7 @@ def verify_contract(qn, timeout_ms, only_variant=None):
                     continue
                 discharge(ob, timeout_ms)
                 rec = {"name": ob.name if ob.name.startswith(qn) else f"{qn}#{ob.name}", "kind": ob.kind, "status": ob.status,
+                       "second_opinion": getattr(ob, "second_opinion", None),
                        "solver_s": round(ob.solver_s, 4), "backend": ob.backend, "reason": ob.reason, "info": ob.info, "model": None}
                 if ob.kind == "canary":
                     # a canary must NOT be provable: 'failed' (sat) means the end of the path is reachable
@@ -740,6 +741,7 @@ def summarise(prop, tier, results, wall, contracts):
     slow = []
     by_backend = {}
     canaries = {"alive": 0, "dead": 0, "canary-unknown": 0}
+    second = {}
     assumptions = set()
     samples = []
     for r in results:
@@ -773,6 +775,11 @@ def summarise(prop, tier, results, wall, contracts):
             bk = ob["backend"] or "?"
             by_backend[bk] = by_backend.get(bk, 0) + 1
             slow.append((ob["solver_s"], ob["name"]))
+            so = ob.get("second_opinion")
+            if so:
+                second[so] = second.get(so, 0) + 1
+                if so == "sat":
+                    faults.append(f"solver disagreement: {ob['name']} is unsat for z3 {z3.get_version_string()} and sat for /usr/bin/z3 4.8.12")
             if ob["status"] == "proved":
                 n_ok += 1
                 if len(samples) < 3:
@@ -797,6 +804,8 @@ def summarise(prop, tier, results, wall, contracts):
         "obligations": n_ob, "discharged": n_ok, "failed": failed, "faults": faults, "undecided": undecided,
         "functions": functions, "by_backend": by_backend, "solver_s": round(solver_s, 2),
         "slowest": [f"{n} {s:.2f}s" for s, n in sorted(slow, reverse=True)[:5]], "canaries": canaries,
+        "second_opinion": ({"solver": "/usr/bin/z3 4.8.12 on the exported SMT-LIB text of a sample of the proved obligations",
+                            "answers": second} if second else None),
         "checker_cmd": f"./check {prop} --tier {tier}  (pyvc: symbolic executor over ast of {SRC}/valida/*.py + z3 {z3.get_version_string()})",
         "trusted_base": TRUSTED_BASE + [f"assumed contract: {a}" for a in assumed],
         "assumptions": sorted(assumptions), "samples": samples, "wall_s": round(wall, 1),
